@@ -22,14 +22,15 @@ func init() { register(&Check{ID: "C12", Run: runC12, Replay: replayC12}) }
 
 // c12Layout is a file built from an intended partition.
 type c12Layout struct {
-	Shape     []int  `json:"shape"`    // fragments per intended segment
-	Tracks    int    `json:"tracks"`   // 1 or 2
-	Mech      string `json:"mech"`     // "styp", "sidx", "sidx2", "mfra", "none"
-	Emsg      int    `json:"emsg"`     // 0 none, 1 before the first moof of every segment, 2 before every moof
-	SegSidx   int    `json:"seg_sidx"` // number of sidx boxes inside each styp segment (mech styp only)
-	Base      uint64 `json:"base"`     // first decode time
-	Cto       int32  `json:"cto"`      // composition offset of the first sample
-	LeadIn    int    `json:"lead_in"`  // unused bytes at the start of each mdat payload
+	Shape     []int  `json:"shape"`           // fragments per intended segment
+	Tracks    int    `json:"tracks"`          // 1 or 2
+	Tfra2     int    `json:"tfra2,omitempty"` // mfra only: second tfra (track 2) with one entry fewer (1) / the same entries (2) / one more (3)
+	Mech      string `json:"mech"`            // "styp", "sidx", "sidx2", "mfra", "none"
+	Emsg      int    `json:"emsg"`            // 0 none, 1 before the first moof of every segment, 2 before every moof
+	SegSidx   int    `json:"seg_sidx"`        // number of sidx boxes inside each styp segment (mech styp only)
+	Base      uint64 `json:"base"`            // first decode time
+	Cto       int32  `json:"cto"`             // composition offset of the first sample
+	LeadIn    int    `json:"lead_in"`         // unused bytes at the start of each mdat payload
 	AudioOnly bool   `json:"audio_only,omitempty"`
 	// Form of the reference track's runs: 0 explicit durations, one trun per traf; 1 uniform durations carried by
 	// the tfhd default; 2 uniform durations carried by the trex default; 3 two truns per traf (explicit); 4 two
@@ -195,6 +196,16 @@ func c12Build(l *c12Layout) *c12Built {
 			dt += b.SegDur[si]
 		}
 		tfra := tableref.FullBox("tfra", 1, 0, c12u32(1), c12u32(0), c12u32(uint32(len(segs))), entries)
+		if l.Tfra2 > 0 {
+			// a second tfra (track 2) with one entry fewer (1), the same entries (2) or one more entry (3) than the first
+			n2, e2 := len(segs)+l.Tfra2-2, append([]byte{}, entries...)
+			if n2 < len(segs) {
+				e2 = e2[:19*n2]
+			} else if n2 > len(segs) {
+				e2 = append(e2, e2[len(e2)-19:]...)
+			}
+			tfra = append(tfra, tableref.FullBox("tfra", 1, 0, c12u32(2), c12u32(0), c12u32(uint32(n2)), e2)...)
+		}
 		mfraLen := 8 + len(tfra) + 16
 		mfro := tableref.FullBox("mfro", 0, 0, c12u32(uint32(mfraLen)))
 		file = append(file, tableref.Box("mfra", tfra, mfro)...)
